@@ -138,6 +138,8 @@ def step_audit(prop, cfg, leanres, breaks, tier):
         except ValueError:
             pass
     bad = [t for t in theorems if not t.get("ok")]
+    # compiler-derived theorems (constructor injectivity, sizeOf specs, projections) are audited but not counted
+    theorems = [t for t in theorems if not t.get("generated")]
     if rc != 0 or bad or not theorems:
         breaks.append(dict(kind="proof", what="audit failed (unexpected axiom, sorry, or no theorems)",
                            obligations=[t["theorem"] for t in bad], detail=err[-1000:]))
